@@ -103,7 +103,8 @@ class Driver {
       const p = this.proc;
       this.proc = null;
       try { p.stdin.end(); } catch (e) {}
-      try { p.kill(); } catch (e) {}
+      // VERIF_DRIVER_GRACEFUL: let the driver leave on end-of-input (needed when it has to write a coverage profile)
+      if (!process.env.VERIF_DRIVER_GRACEFUL) try { p.kill(); } catch (e) {}
     }
   }
 }
